@@ -134,7 +134,8 @@ ReadDevs(l0, e) ==
         One(e.err = reject, l0, "C10", <<"Read accept/reject differs from the specification", e.src, e.bcls, e.rcls, [accepted |-> ~e.err]>>, sig(IF e.err THEN "reject-valid" ELSE why)) \o
         (IF ~e.err /\ ~reject
          THEN One(~e.werr /\ e.rewritten = SubSeq(e.data, 1, need), l0, "C10", "Write(Read(b)) differs from b", sig("rewrite")) \o
-              One(~mp \/ e.reread_equal, l0, "C10", "Read(Write(p)) differs from p", sig("reread"))
+              One(~mp \/ e.reread_equal, l0, "C10", "Read(Write(p)) differs from p", sig("reread")) \o
+              One(e.reuse_ok, l0, "C10", "Read into a proof object that already holds a proof gives a different proof", sig("receiver-state"))
          ELSE <<>>))
 WriteDevs(l0, e) ==
   LET calls == IF e.src = "mp" THEN 2 * WRounds + 2 ELSE 2 * WRounds + 1
